@@ -98,6 +98,10 @@ def build_case(kind, position, exprs):
         for i, t in enumerate(exprs):
             vars_.append(("v%d" % i, gql.type_str(t), None))
             expected["v%d" % i] = (t, kind)
+            # the same expression on a variable that declares a default value in the operation
+            if kind in DEFAULT_LEAF and kind not in ("InObj", "Role"):   # (enum / input-object default literals: recorded findings of C02)
+                vars_.append(("w%d" % i, gql.type_str(t), default_literal(t, DEFAULT_LEAF[kind])))
+                expected["w%d" % i] = (t, kind)
         doc = gql.Doc([gql.Op("query", "Op", [gql.Field("a")], vars_)])
     elif position == "input_field":
         types.append(gql.obj("Q", [("a", "Int")]))
